@@ -45,6 +45,30 @@ def ufGet (s : Snap) : Nat → Nat → Option AppId
 def find (s : Snap) (a : AppId) : Option AppId :=
   (ufGet s (s.uf.length + 1) a.id).map fun l => { id := l.id, m := composePartial l.m a.m }
 
+/-- `unionfind_get_impl` *with* the write-back (`map[i.0] = new`): the result and the union-find table after
+path compression; every entry on the path from `i` to its leader is overwritten by its composed map -/
+def ufGetW (uf : List AppId) : Nat → Nat → Option (AppId × List AppId)
+  | 0, _ => none
+  | fuel + 1, i =>
+    match uf[i]? with
+    | none => none
+    | some entry =>
+      if entry.id = i then some (entry, uf)
+      else match ufGetW uf fuel entry.id with
+        | none => none
+        | some (leader, uf') =>
+          let new : AppId := { id := leader.id, m := composePartial leader.m entry.m }
+          some (new, uf'.set i new)
+
+/-- `find_applied_id` with its effect on the union-find table -/
+def findW (s : Snap) (a : AppId) : Option (AppId × Snap) :=
+  (ufGetW s.uf (s.uf.length + 1) a.id).map fun (l, uf') =>
+    ({ id := l.id, m := composePartial l.m a.m }, { s with uf := uf' })
+
+/-- a sequence of `unionfind_get` calls (what `unionfind_iter`, `find_enode`, … amount to for the table) -/
+def compressAll (uf : List AppId) (ids : List Nat) : Option (List AppId) :=
+  ids.foldl (fun acc i => acc.bind fun u => (ufGetW u (u.length + 1) i).map (·.2)) (some uf)
+
 /-- `is_alive` -/
 def isAlive (s : Snap) (i : Nat) : Bool :=
   match s.uf[i]? with
